@@ -12,6 +12,10 @@ Definition c03_analyze (root : str) (l : layout) : list (str * str * str * bool)
 (* commands.ts level: (invoke name, canonical Promise type) per wrapper *)
 Definition c03_wrappers (root : str) (l : layout) : list (str * str) :=
   canon_pairs (map wobs (emit (analyze root l))).
+(* build-script histories: (invoke name, canonical Promise type) per wrapper after each run,
+   starting from an empty output directory *)
+Definition c03_history (root : str) (ls : list layout) : list (list (str * str)) :=
+  map (fun ws => canon_pairs (map wobs ws)) (build_history root None ls).
 Definition c03_spec (l : layout) : list (str * str) := canon_pairs (map spec_obs (annotated_spec l)).
 Definition c03_spec_files (l : layout) : list (list str) := map fst (annotated_spec l).
 Definition c03_read (ts : str) : option (list wrapper_obs) := read_wrappers ts.
@@ -19,5 +23,5 @@ Definition c03_oracle (expected : list (str * str)) (obs : option (list wrapper_
 Definition c03_perm (a b : list (str * str)) : bool := perm_b a b.
 
 Extraction Language OCaml.
-Extraction "tt_c03.ml" c03_layout_ok c03_analyze c03_wrappers c03_spec c03_spec_files
+Extraction "tt_c03.ml" c03_layout_ok c03_history c03_analyze c03_wrappers c03_spec c03_spec_files
   c03_read c03_oracle c03_perm.
